@@ -234,6 +234,10 @@ def project(events, run_index=0):
         k0=oi("init_mesh_size_integer"), pow2=(pmm == 2.0),
         funevalstart=oi("fun_eval_start"), minrefit=oi("min_refit_time"),
         sloppy=bool(opts.get("sloppy_improvement", True)),
+        removeafter=oi("remove_points_after_tries", 1),
+        sfdefault=bool(abs(float(opts.get("search_scale_success", math.sqrt(2))) - math.sqrt(2)) < 1e-12
+                       and abs(float(opts.get("search_scale_incremental", 2.0)) - 2.0) < 1e-12
+                       and abs(float(opts.get("search_scale_failure", math.sqrt(0.5))) - math.sqrt(0.5)) < 1e-12),
     )
     ev("Construct", outcome="ok", ncalls=cons_ev["ncalls"], consviol=cviol, cfg=cfg,
        lbI=[RU[i](lbI[i]) for i in range(D)], ubI=[RU[i](ubI[i]) for i in range(D)])
@@ -568,7 +572,8 @@ def _i(v):
 def _empty_cfg(D):
     return dict(budget=0, maxiter=0, ktol=0, ntry=0, nfinal=0, accel=False, accelsteps=0,
                 completepoll=False, skippoll=False, locked=False, gnum=0, gmult=0, kcap=0,
-                expand=0, incr=0, stalliters=0, k0=0, pow2=True, funevalstart=0, minrefit=0, sloppy=True)
+                expand=0, incr=0, stalliters=0, k0=0, pow2=True, funevalstart=0, minrefit=0, sloppy=True,
+                removeafter=1, sfdefault=True)
 
 
 def _logged_finite(final):
